@@ -32,6 +32,10 @@ func runC15(c *Ctx) {
 	c.shared("R13", "C09/R1", "an index read leaves the list alone, null elements included: the read arms of the evaluator store through an operand only to auto-vivify an unset variable (a null element turned into an array by `q[0][0]` is no longer found by contains(null))", keyHas("operand-store"), c09R1)
 	c.shared("R14", "C01/R7", "every array has the array methods however it came to be: each construction of an array value sets the array prototype (an array born from an index write included)", keyHas("value-literal ValueArray"), func(s *Ctx) { payloadUnderTag(s, "R7") })
 	c.shared("R15", "C09/R6", "an index write stores whatever is written, null included, and lands in the array that is there: the assignment always reaches the store, and a container created meanwhile by the right-hand side is found as the place itself, not as a copy", keyHas("assignment-always-stores", "parent-relook"), c09R6)
+	c.shared("R16", "C04/R2", "an emptied array is still an array for json() and -o: the conversion of an array yields a (possibly empty) list, never the nil slice that is written as null", keyHas("convert ValueArray", "returned-slice"), runC04)
+	if eu := c.P.LangFunc("(*Evaluator).evalUnaryExpr"); eu != nil {
+		c.shared("R17", "C09/R5", "an index write lands where the index pointed when the target was evaluated: ++ / -- never step a number in place (the pending slot a[n] keeps a pointer to n's number)", keyHas("incdec"), func(s *Ctx) { incdecTable(s, "R5", eu) })
+	}
 	c.shared("R11", "C05/R8", "sort orders an array that is not all numbers by string form: the string form of each kind is the documented one (booleans, null, containers have the empty form)", keyHas("String results", "String guard"), c05Coercions)
 	c.shared("R9", "C10/R6", "the contents of an array are what was written into it: every evaluation of an array literal builds cells of its own — nothing evaluated earlier is remembered in the evaluator or the syntax tree and handed out again", keyHas("evaluator-state", "syntax-tree-store", "interpreter-state"), func(s *Ctx) { interpreterState(s, "R6") })
 	c.shared("R10", "C04/R15", "an index write changes one element: every element of a decoded array (nulls included) gets a cell of its own", keyHas("value-construction"), func(s *Ctx) { newValueTable(s, "R15") })
